@@ -72,6 +72,9 @@ type OptDef struct {
 	PreValue   []string    `json:"prevalue,omitempty"`    // SetValue(name, PreValue...) is called after the declarations, before Parse (a value from a config file)
 }
 
+// SlowFnDelay is how long the completion function declared by ArgFnSlow takes to answer.
+var SlowFnDelay = 1500 * time.Millisecond
+
 // CmdDef declares one command level (the root is a CmdDef too).
 type CmdDef struct {
 	Name         string      `json:"name"`
@@ -405,7 +408,7 @@ func (p *Prog) build(l *level) {
 	if d.ArgFnSlow {
 		opt.ArgCompletionsFns(func(target string, prev []string, partial string) []string {
 			p.Fns++
-			time.Sleep(1500 * time.Millisecond)
+			time.Sleep(SlowFnDelay)
 			return []string{"slow-" + d.Name + "-1"}
 		})
 	}
